@@ -273,11 +273,11 @@ Definition read_command (c : common) : res herr (command * common) :=
   end.
 
 (* ---------------------------------------------------------------- server.rs *)
-Inductive sstep := WaitingForAuth | WaitingForData (m : mech) | WaitingForBegin | SDone.
+Inductive hstep := WaitingForAuth | WaitingForData (m : mech) | WaitingForBegin | SDone.
 
 Record server := mkServer {
   s_common : common;
-  s_step : sstep;
+  s_step : hstep;
   s_guid : bytes;
   s_client_uid : option N;
   s_can_pass_fd : bool          (* socket.read().can_pass_unix_fd() *)
@@ -285,7 +285,7 @@ Record server := mkServer {
 
 Definition with_common (s : server) (c : common) : server :=
   mkServer c (s_step s) (s_guid s) (s_client_uid s) (s_can_pass_fd s).
-Definition with_step (s : server) (st : sstep) : server :=
+Definition with_step (s : server) (st : hstep) : server :=
   mkServer (s_common s) st (s_guid s) (s_client_uid s) (s_can_pass_fd s).
 
 Definition error_text : bytes := B "Unsupported or misplaced command".
